@@ -376,4 +376,17 @@ def build(E):
         "E8: normpath('/' ++ rel) is the canonical location that pathlib resolves root/rel to in a symlink-free tree (C05's quantifier); the static handler serves root / unquote(path).lstrip('/') (decided under C02)",
         "fingerprint provenance (the fingerprint handed to the chain is the SHA-256 of the DER certificate presented) is decided under C04",
     ]
+    # "the resource actually served": the static handler's own lookup must use the SAME canonical location - percent-decoding with
+    # unquote and stripping leading slashes - that the rule matching uses.  That is C02's location clause on the real
+    # StaticFileHandler.handle; it is checked here as well, so that a change on either side of the pair is a C05 failure.
+    from contracts import C02
+    s2 = C02.build(E)
+    if not hasattr(spec, "event_contracts"):
+        spec.event_contracts = {}
+    spec.event_contracts.update(getattr(s2, "event_contracts", {}))
+    spec.targets = list(spec.targets) + list(s2.targets)
+    spec.trusted += [t for t in s2.trusted if t not in spec.trusted]
+    prev_keep = getattr(spec, "keep", None)
+    SF = "nauyaca.server.handler:StaticFileHandler."
+    spec.keep = lambda name: ("a success response carries" in name) if name.startswith(SF) else (prev_keep(name) if prev_keep else True)
     return spec
